@@ -487,10 +487,17 @@ char *output_name(char *path, char *name) {
         fix_win32_filename(o);
     }
 
-    /* search for "../" and change to "xx" to stop directory traversal */
+    /* names from the image never make the output path absolute */
+    for (o = &out[dirlen]; *o == '/' || *o == '\\'; o++) {
+        *o = '_';
+    }
+
+    /* search for "../" (also a final "..") and change to "xx" to stop directory traversal */
     for (o = &out[dirlen]; *o; o++) {
-        if (o[0] == '.' && o[1] == '.' && (o[2] == '/' || o[2] == '\\')) {
+        if (o[0] == '.' && o[1] == '.' && (o[2] == '/' || o[2] == '\\' || o[2] == 0)) {
             o[0] = o[1] = 'x';
+            if (o[2] == 0)
+                break;
             o += 2;
         }
     }
